@@ -126,7 +126,7 @@ func partList(unique bool, tree part.Ops[object], key index.Key) (tableIndexIter
 		// Doing a Get() is more efficient than constructing an iterator.
 		obj, watch, ok := tree.Get(key)
 		if ok {
-			return &singletonTableIndexIterator{key, obj}, watch
+			return &singletonTableIndexIterator{key, obj, true}, watch
 		}
 		return emptyTableIndexIterator, watch
 	}
@@ -624,10 +624,14 @@ func newNonUniqueLowerBoundPartIterator(iter part.Iterator[object], searchKey []
 type singletonTableIndexIterator struct {
 	key []byte
 	obj object
+
+	// found is true if the iterator holds an object. The key
+	// may legitimately be a nil (empty) key.
+	found bool
 }
 
 func (s *singletonTableIndexIterator) All(yield func([]byte, object) bool) {
-	if s.key != nil {
+	if s.found {
 		yield(s.key, s.obj)
 	}
 }
